@@ -31,6 +31,7 @@ type ReadFault struct {
 	At        int  // fires when the read position reaches this offset (before delivering byte At)
 	WithData  bool // deliver the bytes before At in the same call as the error: (m>0, err)
 	Transient bool // error returned once; later reads continue
+	ThenEOF   bool // error returned once; the source then reports a clean end (0, io.EOF)
 }
 
 // ReaderPlan describes how the stored bytes are delivered. Fragmentation is
@@ -101,9 +102,15 @@ func (r *SimReader) fire(i int) error {
 		kind += "-at-eof"
 	}
 	err := fmt.Errorf("%w (read at offset %d)", ErrInjected, f.At)
-	if f.Transient {
+	switch {
+	case f.Transient:
 		kind += "-transient"
-	} else {
+	case f.ThenEOF:
+		// a source that reports its failure once and then looks finished
+		// (not every reader is sticky): the consumer must not forget the error
+		kind += "-then-eof"
+		r.dead = io.EOF
+	default:
 		r.dead = err
 	}
 	r.FiredKinds[kind]++
